@@ -739,6 +739,15 @@ impl<'a> NtpPacket<'a> {
                         .authenticated
                         .iter()
                         .chain(input.efdata.encrypted.iter())
+                        // Only cookies and placeholders count towards the limit, other
+                        // fields must not be able to push the cookie out of the window.
+                        .filter(|f| {
+                            matches!(
+                                f,
+                                ExtensionField::NtsCookie(_)
+                                    | ExtensionField::NtsCookiePlaceholder { .. }
+                            )
+                        })
                         .take(MAX_COOKIES)
                         .filter_map(|f| match f {
                             ExtensionField::NtsCookiePlaceholder { cookie_length } => {
@@ -784,6 +793,15 @@ impl<'a> NtpPacket<'a> {
                         .authenticated
                         .iter()
                         .chain(input.efdata.encrypted.iter())
+                        // Only cookies and placeholders count towards the limit, other
+                        // fields must not be able to push the cookie out of the window.
+                        .filter(|f| {
+                            matches!(
+                                f,
+                                ExtensionField::NtsCookie(_)
+                                    | ExtensionField::NtsCookiePlaceholder { .. }
+                            )
+                        })
                         .take(MAX_COOKIES)
                         .filter_map(|f| match f {
                             ExtensionField::NtsCookiePlaceholder { cookie_length } => {
